@@ -98,7 +98,14 @@ def flags(repo):
     stop_shape = (r"bool\s+inString\s*=\s*false\s*,\s*endOfRecord\s*=\s*false\s*;\s*for\(\s*in\.get\(\s*c\s*\)\s*;\s*in\s*&&\s*!IsDelimiter\(\s*delimiterList\s*,\s*c\s*\)\s*;\s*in\.get\(\s*c\s*\)\s*\)\s*\{\s*"
                   r"if\(\s*c\s*==\s*'\\''\s*\)\s*\{\s*inString\s*=\s*!inString\s*;\s*\}\s*else\s+if\(\s*c\s*==\s*';'\s*&&\s*!inString\s*\)\s*\{\s*in\.putback\(\s*c\s*\)\s*;\s*"
                   r"endOfRecord\s*=\s*true\s*;\s*break\s*;\s*\}\s*skipBuf\s*\+=\s*c\s*;\s*\}\s*if\(\s*!endOfRecord\s*&&\s*IsDelimiter\(\s*delimiterList\s*,\s*c\s*\)\s*\)")
+    first_shape = (r"bool\s+endOfRecord\s*=\s*false\s*;\s*for\(\s*in\.get\(\s*c\s*\)\s*;\s*in\s*&&\s*!IsDelimiter\(\s*delimiterList\s*,\s*c\s*\)\s*;\s*in\.get\(\s*c\s*\)\s*\)\s*\{\s*"
+                   r"if\(\s*c\s*==\s*';'\s*\)\s*\{\s*in\.putback\(\s*c\s*\)\s*;\s*endOfRecord\s*=\s*true\s*;\s*break\s*;\s*\}\s*skipBuf\s*\+=\s*c\s*;\s*\}\s*"
+                   r"if\(\s*!endOfRecord\s*&&\s*IsDelimiter\(\s*delimiterList\s*,\s*c\s*\)\s*\)")
+    out["criCountsQuotes"] = False
     if re.search(stop_shape, cr):
+        out["criStopsAtSemicolon"] = True
+        out["criCountsQuotes"] = True
+    elif re.search(first_shape, cr) and "inString" not in cr:
         out["criStopsAtSemicolon"] = True
     elif "endOfRecord" not in cr and "inString" not in cr:
         out["criStopsAtSemicolon"] = False
@@ -207,13 +214,22 @@ def flags(repo):
                 r"in\s*>>\s*ws\s*;\s*in\.get\(\s*c\s*\)\s*;\s*tmp\s*\+=\s*c\s*;\s*if\(\s*c\s*==\s*';'\s*\)\s*\{[^{}]*\}\s*"
                 r"else\s+if\(\s*in\.good\(\)\s*&&\s*c\s*==\s*'\\''\s*\)\s*\{\s*inString\s*=\s*!inString\s*;\s*\}\s*\}\s*\}\s*"
                 r"_error\.AppendToDetailMsg\(\s*tmp\.c_str\(\)\s*\)")
+    first_scan = (r"while\(\s*in\.good\(\)\s*&&\s*!foundEnd\s*\)\s*\{\s*while\(\s*in\.good\(\)\s*&&\s*\(\s*c\s*!=\s*'\)'\s*\)\s*&&\s*!foundEnd\s*\)\s*\{\s*"
+                  r"in\.get\(\s*c\s*\)\s*;\s*tmp\s*\+=\s*c\s*;\s*if\(\s*in\.good\(\)\s*&&\s*c\s*==\s*';'\s*\)\s*\{\s*in\.putback\(\s*c\s*\)\s*;\s*foundEnd\s*=\s*1\s*;\s*\}\s*\}\s*"
+                  r"if\(\s*!foundEnd\s*&&\s*in\.good\(\)\s*&&\s*\(\s*c\s*==\s*'\)'\s*\)\s*\)\s*\{\s*"
+                  r"in\s*>>\s*ws\s*;\s*in\.get\(\s*c\s*\)\s*;\s*tmp\s*\+=\s*c\s*;\s*if\(\s*c\s*==\s*';'\s*\)\s*\{[^{}]*\}\s*\}\s*\}\s*"
+                  r"_error\.AppendToDetailMsg\(\s*tmp\.c_str\(\)\s*\)")
+    out["recoveryCountsQuotes"] = False
     if re.search(old_scan, rb) and "inString" not in rb:
         out["recoveryStopsAtSemicolon"] = False
     elif re.search(new_scan, rb) and len(re.findall(r"\binString\b", rb)) == 6 and out["recoveryKeepsSemicolon"]:
         out["recoveryStopsAtSemicolon"] = True
+        out["recoveryCountsQuotes"] = True
+    elif re.search(first_scan, rb) and "inString" not in rb and out["recoveryKeepsSemicolon"]:
+        out["recoveryStopsAtSemicolon"] = True
     else:
         raise ValueError("SDAI_Application_instance::STEPread: the recovery scan after 'No more attributes were expected' is no longer "
-                         "one of the two shapes of nested character loops the model's recoverScan transliterates")
+                         "one of the three shapes of nested character loops the model's recoverScan transliterates")
     # ---- the raw-text scanners (elements of aggregates of aggregates; parameter lists SkipSimpleRecord steps over): the
     # iterative PushPastImbedAggr and the switch of SCLundefined::STEPread, each with or without the `;` that ends the value
     # at the end of the record (fixes/C05-16 and -17 go together)
@@ -235,6 +251,15 @@ def flags(repo):
     if bool(mp.group(1)) != bool(semi):
         raise ValueError("PushPastImbedAggr and SCLundefined::STEPread disagree about ending a value at `;`")
     out["rawValueStaysInRecord"] = bool(semi)
+    # ReadComment: bounded by MAX_COMMENT_LENGTH (a longer comment is abandoned with SkipInstance) or read in chunks of that
+    # length while the stream is good (the model's readComment has no bound: it is the code's only in the second shape)
+    rc = _strip(_body(rf0, r"const\s+char\s*\*\s*ReadComment\(\s*istream\s*&\s*in", "ReadComment"))
+    if not re.search(r"while\(\s*commentLength\s*<=\s*MAX_COMMENT_LENGTH\s*\)", rc):
+        raise ValueError("ReadComment: loop header changed")
+    chunk = re.search(r"if\(\s*commentLength\s*>\s*MAX_COMMENT_LENGTH\s*&&\s*in\.good\(\)\s*\)\s*\{\s*commentLength\s*=\s*0\s*;\s*\}\s*\}\s*cout", rc)
+    if not chunk and len(re.findall(r"\bcommentLength\b", rc)) != 4:
+        raise ValueError("ReadComment: unknown use of commentLength")
+    out["commentsOfAnyLength"] = bool(chunk)
     # SkipSimpleRecord: the loop `skipRecLoop` of the model transliterates (own character loop; the shared descriptor ends it)
     ssr = _strip(_body(rf0, r"const\s+char\s*\*\s*SkipSimpleRecord\(\s*istream\s*&\s*in", "SkipSimpleRecord"))
     if not re.search(r"in\s*>>\s*ws\s*;\s*in\.get\(\s*c\s*\)\s*;\s*if\(\s*c\s*==\s*'\('\s*\)\s*\{\s*buf\s*\+=\s*c\s*;\s*"
@@ -457,7 +482,9 @@ def rwCfg : StepModel.P21.RWCfg :=
     complexReportsError := StepModel.AttrNull.codeShape.reports,
     skipInstanceSkipsComments := {_b(f['skipInstanceSkipsComments'])},
     missingSemicolonReported := {_b(f['missingSemicolonReported'])},
+    commentsOfAnyLength := {_b(f['commentsOfAnyLength'])},
     recoveryStopsAtSemicolon := {_b(f['recoveryStopsAtSemicolon'])},
+    recoveryCountsQuotes := {_b(f['recoveryCountsQuotes'])},
     rawValueStaysInRecord := {_b(f['rawValueStaysInRecord'])},
     missingCheckEverySecond := {_b(f['missingCheckEverySecond'])},
     fillerOnlyForDollar := {_b(f['fillerOnlyForDollar'])},
